@@ -634,7 +634,11 @@ func (p *prog) smartTimeLock(c *contract) *opSpec {
 		}
 		fallthrough
 	case 2, 3, 4, 5:
-		args := [][]byte{p.anyAddr("tlDest"), p.anyBig("tlAmount", p.transferAmounts(c)...)}
+		dest := p.anyAddr("tlDest")
+		if p.chance("tlDestSelf", 20) {
+			dest, p.selfPicked = c.addr.Bytes(), true // the time lock pays itself
+		}
+		args := [][]byte{dest, p.anyBig("tlAmount", p.transferAmounts(c)...)}
 		args, cls := p.mangle(args, "tlArgs")
 		op := p.mkCall(c, p.ownerOr(c, "tlSender"), "transfer", p.payAmount("tlPay", c.owner), args, cls, true)
 		if len(args) >= 2 {
